@@ -86,6 +86,8 @@ class FStr:
     def pieces(self, node: ast.AST) -> list:
         if isinstance(node, ast.Constant) and isinstance(node.value, str):
             return [('Lit', node.value)] if node.value else []
+        if isinstance(node, ast.BinOp) and isinstance(node.op, ast.Add):
+            return self._merge(self.pieces(node.left) + self.pieces(node.right))
         if not isinstance(node, ast.JoinedStr):
             sp = self.simple(node)
             if sp is None:
@@ -104,6 +106,10 @@ class FStr:
                 continue
             sp = self.simple(v.value)
             out += sp if sp is not None else [('Other', ast.dump(v.value)[:60])]
+        return self._merge(out)
+
+    @staticmethod
+    def _merge(out: list) -> list:
         # merge adjacent literals
         merged: list = []
         for p in out:
@@ -194,6 +200,53 @@ def _strip_doc(body: list) -> list:
             and isinstance(body[0].value.value, str):
         return body[1:]
     return body
+
+
+
+def _is_bare_return(s: ast.AST) -> bool:
+    return isinstance(s, ast.Return) and (s.value is None or (isinstance(s.value, ast.Constant) and s.value.value is None))
+
+
+def _ends_in_bare_return(stmts: list) -> bool:
+    return bool(stmts) and _is_bare_return(stmts[-1])
+
+
+def norm_tail(stmts: list) -> list:
+    """Semantic normalisation of a statement list in *tail position* of a function that returns None (or of a
+    generator): control flow is brought to nested if/else form before the shape matchers look at it.
+      * `if c: A; return` followed by R          ->  `if c: A else: R`       (early return = else branch)
+      * `if c: A else: B; return` followed by R  ->  `if c: A; R else: B`
+      * `if not c: A else: B`                    ->  `if c: B else: A`
+      * a trailing bare `return` / `return None` is dropped; `pass` is dropped
+    applied recursively to the branches (which are then in tail position themselves).  Statements that are not in
+    tail position are left alone (a `return` inside a loop stays and is rejected later, fail closed)."""
+    stmts = [s for s in stmts if not isinstance(s, ast.Pass)]
+    for i, s in enumerate(stmts):
+        if not isinstance(s, ast.If):
+            continue
+        rest = stmts[i + 1:]
+        body, orelse = list(s.body), list(s.orelse)
+        if rest:
+            if _ends_in_bare_return(body) and not _ends_in_bare_return(orelse):
+                orelse = orelse + rest
+            elif _ends_in_bare_return(orelse) and not _ends_in_bare_return(body):
+                body = body + rest
+            elif _ends_in_bare_return(orelse) and _ends_in_bare_return(body):
+                pass        # rest is unreachable
+            else:
+                continue    # an ordinary if followed by more statements: not in tail position
+        test = s.test
+        if isinstance(test, ast.UnaryOp) and isinstance(test.op, ast.Not) and orelse:
+            test, body, orelse = test.operand, orelse, body
+        elif isinstance(test, ast.Compare) and len(test.ops) == 1 and isinstance(test.ops[0], ast.IsNot) and orelse:
+            test = ast.copy_location(ast.Compare(left=test.left, ops=[ast.Is()], comparators=test.comparators), test)
+            body, orelse = orelse, body
+        new = ast.If(test=test, body=norm_tail(body) or [ast.Pass()], orelse=norm_tail(orelse))
+        ast.copy_location(new, s)
+        return stmts[:i] + [new]
+    if _ends_in_bare_return(stmts):
+        return norm_tail(stmts[:-1])
+    return stmts
 
 
 def tr_serialise(fn: ast.FunctionDef, inner: ast.FunctionDef):
@@ -301,17 +354,27 @@ def tr_inner(fn: ast.FunctionDef):
             return None
         c = s.body[0].value
         if not (isinstance(c, ast.Call) and isinstance(c.func, ast.Attribute) and c.func.attr == fn.name
-                and _is_name(c.func.value, s.target.id) and len(c.args) == 5 and not c.keywords):
-            raise _err(s, 'child loop does not call child._serialise with 5 positional arguments')
-        if [getattr(x, 'id', None) for x in c.args[:4]] != [file_name, ind, ob, cb]:
+                and _is_name(c.func.value, s.target.id)):
+            raise _err(s, 'child loop does not call child._serialise')
+        cargs = list(c.args)
+        if any(isinstance(x, ast.Starred) for x in cargs) or any(k.arg is None for k in c.keywords):
+            raise _err(s, 'child loop passes */** arguments')
+        kw = {k.arg: k.value for k in c.keywords}
+        for pname in params[1 + len(cargs):]:       # keyword arguments, resolved against the parameter list
+            if pname not in kw:
+                raise _err(s, f'child loop does not pass {pname}')
+            cargs.append(kw.pop(pname))
+        if kw or len(cargs) != 5:
+            raise _err(s, 'child loop does not call child._serialise with its 5 arguments')
+        if [getattr(x, 'id', None) for x in cargs[:4]] != [file_name, ind, ob, cb]:
             raise _err(s, 'file/indent/open_brace/close_brace are not passed through unchanged to the children')
-        return fs.pieces(c.args[4])
+        return fs.pieces(cargs[4])
 
     def seq(stmts, allow_loop):
         """-> (pieces before loop, child indent pieces or None, pieces after loop)"""
         pre, post, loop = [], [], None
         for s in stmts:
-            if isinstance(s, ast.Assert):
+            if isinstance(s, (ast.Assert, ast.Pass)):
                 continue
             if isinstance(s, ast.Expr) and isinstance(s.value, ast.Constant):
                 continue
@@ -332,7 +395,7 @@ def tr_inner(fn: ast.FunctionDef):
             raise _err(s, f'unrecognised statement in _serialise: {type(s).__name__}')
         return pre, loop, post
 
-    body = [s for s in _strip_doc(fn.body) if not (isinstance(s, ast.AnnAssign) and s.value is None)]
+    body = norm_tail([s for s in _strip_doc(fn.body) if not (isinstance(s, ast.AnnAssign) and s.value is None)])
     if len(body) != 1 or not isinstance(body[0], ast.If):
         raise _err(fn, '_serialise body is not a single if/else')
     top = body[0]
@@ -340,7 +403,7 @@ def tr_inner(fn: ast.FunctionDef):
     if not (isinstance(t, ast.Call) and _is_name(t.func, 'isinstance') and len(t.args) == 2
             and is_self_attr(t.args[0], '_value') and _is_name(t.args[1], 'list')):
         raise _err(top, 'top test is not isinstance(self._value, list)')
-    blk = [s for s in top.body if not isinstance(s, ast.Assert)]
+    blk = [s for s in top.body if not isinstance(s, (ast.Assert, ast.Pass))]
     if len(blk) != 1 or not isinstance(blk[0], ast.If):
         raise _err(top, 'block branch is not a single if/else on the root test')
     root_test = classify_root_test(blk[0].test, self_name)
@@ -405,7 +468,7 @@ def tr_export_struct(fn: ast.FunctionDef) -> dict:
             raise _err(st, 'unrecognised expression statement in export()')
         return pre, prefix, post
 
-    body = _strip_doc(fn.body)
+    body = norm_tail(_strip_doc(fn.body))
     if len(body) != 1 or not isinstance(body[0], ast.If):
         raise _err(fn, 'export() body is not a single if/else')
     top = body[0]
@@ -413,7 +476,7 @@ def tr_export_struct(fn: ast.FunctionDef) -> dict:
     if not (isinstance(t, ast.Call) and _is_name(t.func, 'isinstance') and len(t.args) == 2
             and is_self_attr(t.args[0], '_value') and _is_name(t.args[1], 'list')):
         raise _err(top, 'export(): top test is not isinstance(self._value, list)')
-    blk = [x for x in top.body if not isinstance(x, ast.Assert)]
+    blk = [x for x in top.body if not isinstance(x, (ast.Assert, ast.Pass))]
     if len(blk) != 1 or not isinstance(blk[0], ast.If):
         raise _err(top, 'export(): block branch is not a single if/else on the root test')
     root_test = classify_root_test(blk[0].test, self_name)
